@@ -269,6 +269,7 @@ Fixpoint exec_loop (seqs : list sequence) (lits : list Z) (buf : dbuf) (hist : l
   match seqs with
   | [] => ROk (buf, hist, lits, seq_sum)
   | sq :: t =>
+      if MAX_BLOCK_SIZE <? seq_sum + sq_ll sq + sq_ml sq then RErr "BlockTooLarge" else
       let* (buf, lits) :=
         (if 0 <? sq_ll sq then
            match split_at (Z.to_nat (sq_ll sq)) lits with
@@ -289,6 +290,7 @@ Definition execute_sequences (seqs : list sequence) (lits : list Z) (buf : dbuf)
   : res (dbuf * list Z) :=
   let old := db_len buf in
   let* (buf, hist, rest, seq_sum) := exec_loop seqs lits buf hist 0 in
+  if (0 <? zlen rest) && (MAX_BLOCK_SIZE <? seq_sum + zlen rest) then RErr "BlockTooLarge" else
   let buf := if 0 <? zlen rest then db_push buf rest else buf in
   let seq_sum := seq_sum + zlen rest in
   if negb (seq_sum mod 2 ^ 32 =? db_len buf - old) then RPanic "assert seq_sum == diff"
@@ -301,6 +303,7 @@ Definition decompress_block (content_size : Z) (sc : scratch) (raw : list Z) : r
   | RPanic e => RPanic e
   | ROk (used, ty, regen, comp, streams) =>
       let raw1 := drop_z used raw in
+      if MAX_BLOCK_SIZE <? regen then RErr "LiteralsTooLarge" else
       let upper := match comp with Some x => x | None => if ty =? 1 then 1 else regen end in
       if zlen raw1 <? upper then RErr "MalformedSectionHeader"
       else
